@@ -312,7 +312,8 @@ for pid, items in (("C10", [(WPK, "w_par_lift_homU")]), ("C03", [(WPK, "w_par_sw
 
 # tweaked key schedules and the set_tweak functions on the key-schedule image (WholeKeyTweak.v)
 WKT = "WholeKeyTweak.v"
-KTW = [(WKT, "key_sched128_tweaked_model"), (WKT, "key_sched64_tweaked_model"), (WKT, "w_set_tweak128_model"), (WKT, "w_set_tweak64_model")]
-for pid, items in (("C04", KTW), ("C10", KTW[:2])):
+KTW = [(WKT, "key_sched128_tweaked_model"), (WKT, "key_sched64_tweaked_model"), (WKT, "w_set_tweak128_model"), (WKT, "w_set_tweak64_model"),
+       (WKT, "w_set_tweaked_key128_model"), (WKT, "w_set_tweaked_key64_model")]
+for pid, items in (("C04", KTW), ("C10", KTW[:2] + KTW[4:])):
     if pid in PLAN:
         add_imports(pid, WHI + ["ModelCipher", "ModelCtr", "WholeProc", "WholeCtr", "WholeCtrModel", "WholeKeyTweak"]); PLAN[pid] += items
